@@ -1,4 +1,5 @@
 import H3.Lemmas.C06Run
+import H3.Lemmas.C06Free
 import H3.Lemmas.C06Ctl
 import H3.Props.C04
 import H3.Props.C05
@@ -6,6 +7,8 @@ import H3.Props.C11Closed
 import H3.Props.C12
 import H3.Props.C14
 import H3.Lemmas.Setup
+import H3.Lemmas.SendCompletion
+import H3.Lemmas.ConnClose
 /-! # C06 — no peer behaviour makes h3 panic or leaves a call pending for ever
 
 Property theorems only; vocabulary and proofs are in `H3/Lemmas/C06{Frame,Req,Run,Ctl}.lean`.
@@ -99,16 +102,50 @@ example : DocReach .client okHdr 9 .body
 example : (pollPhase .client okHdr 9 .body (pollPhase .client okHdr 9 .head
     (initSt [.chunk [0x01, 0x01, 0xaa, 0x00, 0x03, 0xb1]])).2).2.src.1.remaining = 2 := by decide +kernel
 
-/-- **Outside the documented pattern the model does say panic** (so the theorems above are not
-    vacuous in their hypothesis): HEADERS, DATA(4) with two payload bytes, FIN.  `recv_data`
-    fails with H3_FRAME_ERROR (the truncation, C02); calling `recv_trailers` *after that error*
-    reaches `poll_next` with `remaining_data = 4` and the `assert!` fires. -/
-theorem C06_panic_outside_pattern_witness :
+/-- **No panic on a request stream — ANY order of calls (no call-pattern hypothesis).**  After the
+    repair "recv_trailers answers an error instead of panicking while a DATA payload is outstanding"
+    `poll_recv_trailers` tests `has_data()` first, as `poll_recv_data` always did
+    (`pollRecvTrailersG`).  For EVERY state of a request stream — any buffered chunks, any transport
+    script behind them, any `remaining_data`, any saved trailers, any recorded error; that is:
+    whatever was called before, in whatever order, whatever it answered (errors included), whatever
+    arrived in between:
+    * `recv_data` does not panic (for every bound on its loop);
+    * `recv_trailers` does not panic;
+    * the message head (`resolve_request`, which consumes the resolver and so runs once, first;
+      `recv_response`, which the documentation wants called before `recv_data`) does not panic from
+      `remaining_data = 0`, i.e. as the first call;
+    * and the repair changes nothing inside the documented pattern: whenever `remaining_data = 0` —
+      in particular in every configuration the pattern reaches before `recv_trailers` (`DocReach …
+      .trailers`) — the repaired function is the function the other theorems (C03, C07, C01 and the
+      completion theorems below) are about. -/
+theorem C06_no_panic_any_call_order (role : Role) (H : Hdr) :
+    (∀ (N : Nat) (st : RSt), (pollRecvData fsSrc N st).1 ≠ .panic) ∧
+    (∀ st : RSt, (pollRecvTrailersG fsSrc H st).1 ≠ .panic) ∧
+    (∀ st : RSt, st.src.1.remaining = 0 → (pollHead role fsSrc H st).1 ≠ .panic) ∧
+    (∀ st : RSt, st.src.1.remaining = 0 → pollRecvTrailersG fsSrc H st = pollRecvTrailers fsSrc H st) ∧
+    (∀ (N : Nat) (st : RSt), DocReach role H N .trailers st →
+      pollRecvTrailersG fsSrc H st = (pollPhase role H N .trailers st)) :=
+  ⟨pollRecvData_never_panics, pollRecvTrailersG_never_panics H, pollHead_never_panics role H,
+   pollRecvTrailersG_eq H, fun _ st h => pollRecvTrailersG_eq H st (docReach_inv h).1⟩
+
+/-- **The guard is what keeps the `assert!` from firing** (the scenario that used to be the panic
+    outside the documented pattern): HEADERS, DATA(4) with two payload bytes, FIN.  `recv_data` fails
+    with H3_FRAME_ERROR (the truncation, C02) and leaves `remaining_data = 4`; the part of
+    `poll_recv_trailers` behind the guard would reach `poll_next` and its `assert!` (`panic` in the
+    model, as the code before the repair did); the repaired function answers
+    `StreamError{H3_FRAME_UNEXPECTED}`.  The same after a partly read body without any error. -/
+theorem C06_recv_trailers_guard_witness :
     (pollRecvData fsSrc 10 (pollHead .server fsSrc okHdr
       (initSt [.chunk [0x01, 0x01, 0xaa, 0x00, 0x04, 0xb1, 0xb2], .fin])).2).1 = .errConn 262 ∧
     (pollRecvTrailers fsSrc okHdr (pollRecvData fsSrc 10 (pollHead .server fsSrc okHdr
       (initSt [.chunk [0x01, 0x01, 0xaa, 0x00, 0x04, 0xb1, 0xb2], .fin])).2).2).1 = .panic ∧
-    nextPhase .body (.errConn 262) = none := by decide +kernel
+    (pollRecvTrailersG fsSrc okHdr (pollRecvData fsSrc 10 (pollHead .server fsSrc okHdr
+      (initSt [.chunk [0x01, 0x01, 0xaa, 0x00, 0x04, 0xb1, 0xb2], .fin])).2).2).1 = .errStream 261 ∧
+    (pollRecvData fsSrc 10 (pollHead .client fsSrc okHdr
+      (initSt [.chunk [0x01, 0x01, 0xaa, 0x00, 0x04, 0xb1, 0xb2]])).2).1 = .data [0xb1, 0xb2] ∧
+    (pollRecvTrailersG fsSrc okHdr (pollRecvData fsSrc 10 (pollHead .client fsSrc okHdr
+      (initSt [.chunk [0x01, 0x01, 0xaa, 0x00, 0x04, 0xb1, 0xb2]])).2).2).1 = .errStream 261 := by
+  decide +kernel
 
 /-! ## 2. Request streams: completion -/
 
@@ -340,39 +377,97 @@ example : PrefixString.decode? 8 [0x82, 0xff] = some (.err .unexpectedEnd) := by
 
 /-! ## 6. Connection close -/
 
-/-- **When the connection has failed or was closed.**  What the models state (the *gap* to the
-    property text: in the models a closed connection reaches a stream read as the transport's
-    error answer, which `H3.FS` has as `reset`; that SimQuic/Quinn wake every task parked on a
-    stream when the peer closes or the connection times out is transport behaviour, observed by
-    the `adv` run, not modelled):
-    * `poll_control` with the connection error recorded returns it at once, whatever is queued
-      on the control stream, the unidirectional streams and the grease stream — and so does the
-      role's driver poll: neither is ever `Pending` again;
-    * the error cell (C05, the code after 57afec5): whatever the streams and the driver did, a
-      stored error — a peer close `quic (appClose code)` and a timeout `quic timeout` are such
-      errors — is never lost between tasks: a parked driver has been woken, and its next poll
-      returns the error (converted) however the stream handles' steps interleave;
-    * a request stream whose transport answers with an error next (`reset`): the call the
-      documented pattern makes completes — not `Pending`, not a panic — in every configuration
-      the pattern can reach; and once the cell holds an error every connection-level failure of
-      a call returns the stored one (first wins). -/
-theorem C06_connection_close_partial :
-    (∀ (blocking : Bool) (cfg : Control.Cfg) (c : Control.Conn) (gs : Control.Grease) (ins : List Control.In)
+/-- **When the connection has failed or was closed** (full strength: the connection error is an
+    event of the model).  `H3.ConnClose` carries the event additively: the frame layer passes on
+    whatever `StreamErrorIncoming` the transport answers, so `FS.Ev.reset c` / `Out.errQuic c` stand
+    for "the transport answered `Err(e)`", `c` naming `e`; `TErr.code` names every variant — the
+    identity on RESET_STREAM codes (`< 2^62`), numbers from `2^62` on for `ConnectionErrorIncoming`
+    (`EvC.connErr q`: the peer closed the connection, it timed out, it failed) and `Unknown`.
+    1. The naming loses nothing, and a connection error is never mistaken for a reset.
+    2. Frame layer: with `connErr q` the transport's next answer (the end of the stream not yet
+       read), `poll_next` and `poll_data` answer `Err(Quic(connection error))` AT ONCE — before
+       anything buffered is decoded — and leave state and script alone: the error stays the
+       transport's answer to every later read (sticky), as SimQuic and Quinn behave.
+    3. Request streams, ANY state (whatever was called before, whatever it answered): with `connErr
+       q` the transport's next answer, `recv_data`, `recv_trailers` and (as the first call) the
+       message head do not answer `Pending` and do not panic; while the end of the stream has not
+       been read they answer exactly the connection error (`recv_trailers` from a state with a DATA
+       payload outstanding answers the stream error of its guard), the state is untouched, so every
+       later call completes the same way.
+    4. What the caller is handed: `handle_quic_stream_error` stores the error in the connection's
+       cell unless one is there (first wins) and returns `StreamError::ConnectionError` of the error
+       IN the cell; a RESET_STREAM code still yields `RemoteTerminate` and leaves the cell alone.
+    5. The driver: `poll_control` with the error recorded returns it at once whatever is queued, and
+       so does the role's driver poll; the error cell never loses a stored error — a peer close
+       `quic (appClose code)` and a timeout `quic timeout` are such errors — and a parked driver's
+       next poll returns it however the stream handles' steps interleave (`C05_no_lost_wakeup`);
+       once the cell holds an error every connection-level failure of a call returns the stored one.
+    6. The send side: a send call (`send_request` waiting for stream credit included) that is
+       pending returns the connection error as soon as the transport answers it
+       (`C06_send_completion`).
+    What remains the transport's: that it wakes every task parked on one of its calls when the
+    connection fails (SimQuic does, Quinn does; `C06_setup_pending_only_on_transport` and the frame
+    layer's `pend` facts say h3 answers `Pending` only from a transport call that answered
+    `Pending`) — the `adv`, `flt` and `wt` runs observe it at executor quiescence (R-06). -/
+theorem C06_connection_close :
+    ((∀ e : ConnClose.TErr, (∀ c, e = .terminated c → c < 2 ^ 62) → ConnClose.TErr.ofCode e.code = e) ∧
+      ∀ q, 2 ^ 62 ≤ ConnClose.TErr.code (.conn q)) ∧
+    (∀ (s : FS.St) (q : ErrCell.QErr) (r : List ConnClose.EvC), s.eos = false →
+      (s.remaining = 0 → FS.pollNext FS.frameDec s (ConnClose.lower (.connErr q :: r)) =
+        (.errQuic (ConnClose.TErr.code (.conn q)), s, ConnClose.lower (.connErr q :: r))) ∧
+      (s.remaining ≠ 0 → FS.pollData (F := H3.Frame.Frame) (E := H3.Frame.FrameErr) s (ConnClose.lower (.connErr q :: r)) =
+        (.errQuic (ConnClose.TErr.code (.conn q)), s, ConnClose.lower (.connErr q :: r)))) ∧
+    (∀ (role : Role) (H : Hdr) (N : Nat) (st : RSt) (q : ErrCell.QErr) (r : List ConnClose.EvC),
+      st.src.2 = ConnClose.lower (.connErr q :: r) →
+      ((pollRecvData fsSrc N st).1 ≠ .pending ∧ (pollRecvData fsSrc N st).1 ≠ .panic) ∧
+      ((pollRecvTrailersG fsSrc H st).1 ≠ .pending ∧ (pollRecvTrailersG fsSrc H st).1 ≠ .panic) ∧
+      (st.src.1.remaining = 0 →
+        (pollHead role fsSrc H st).1 ≠ .pending ∧ (pollHead role fsSrc H st).1 ≠ .panic) ∧
+      (st.src.1.eos = false →
+        pollRecvData fsSrc (N + 1) st = (.errReset (ConnClose.TErr.code (.conn q)), st) ∧
+        (st.src.1.remaining = 0 → st.trailers = none →
+          pollRecvTrailersG fsSrc H st = (.errReset (ConnClose.TErr.code (.conn q)), st)) ∧
+        (st.src.1.remaining = 0 →
+          pollHead role fsSrc H st = (.errReset (ConnClose.TErr.code (.conn q)), st)))) ∧
+    ((∀ (cell : Option ErrCell.Err) (q : ErrCell.QErr),
+        ConnClose.handleQuic cell (ConnClose.TErr.ofCode (ConnClose.TErr.code (.conn q))) =
+          (.connection (ErrCell.convert (cell.getD (.quic q))), some (cell.getD (.quic q)))) ∧
+      (∀ (cell : Option ErrCell.Err) (c : Nat), c < 2 ^ 62 →
+        ConnClose.handleQuic cell (ConnClose.TErr.ofCode c) = (.remoteTerminate c, cell))) ∧
+    ((∀ (blocking : Bool) (cfg : Control.Cfg) (c : Control.Conn) (gs : Control.Grease) (ins : List Control.In)
         (g : List Control.GAns) (e : Nat), c.err = some e →
       (Control.pollControl blocking cfg c gs ins g).res = .err e ∧
       ∀ fuel, (Control.drivePoll blocking cfg (fuel + 1) c gs ins g).res = some e) ∧
-    (∀ (todo : List (List ErrCell.Err)) (sched : List ErrCell.TaskId) (e : ErrCell.Err),
+     (∀ (todo : List (List ErrCell.Err)) (sched : List ErrCell.TaskId) (e : ErrCell.Err),
       let s := ErrCell.run true (ErrCell.init todo) sched
       ErrCell.lostWakeup s = false ∧
       (s.cell = some e → s.pc = .idle → ∀ mid₁ mid₂ : List Nat,
         let s' := ErrCell.run true s
           ([.drv .poll] ++ mid₁.map .str ++ [.drv .pce] ++ mid₂.map .str ++ [.drv .pce])
         s'.handled = some (ErrCell.convert e) ∧ ∃ rest, s'.drets = ErrCell.convert e :: rest)) ∧
-    (∀ (role : Role) (H : Hdr) (N : Nat) (ph : Phase) (st : RSt), DocReach role H N ph st →
-      (∃ x r, st.src.2 = .reset x :: r) →
-      (pollPhase role H N ph st).1 ≠ .pending ∧ (pollPhase role H N ph st).1 ≠ .panic) ∧
-    (∀ (st : RSt) (c code : Nat), st.env.cell = some c → connErr st code = (.errConn c, st)) := by
-  refine ⟨?_, ?_, ?_, ?_⟩
+     (∀ (st : RSt) (c code : Nat), st.env.cell = some c → connErr st code = (.errConn c, st))) ∧
+    (∀ (c : WriteBuf.SendCall) (_ : ∀ w ∈ c.writes, w.WF) (script : List WriteBuf.Acc) (out : List Nat)
+        (q : Nat) (more : List WriteBuf.Acc),
+      WriteBuf.callE c script = .pending out →
+      WriteBuf.callE c (script ++ .err (.conn q) :: more) = .failed out (.conn q)) := by
+  refine ⟨⟨ConnClose.ofCode_code, ConnClose.conn_code_ge⟩, ?_, ?_, ⟨?_, ?_⟩, ⟨?_, ?_, ?_⟩, ?_⟩
+  · intro s q r heos
+    rw [ConnClose.lower_connErr]
+    exact ⟨fun h0 => pollNext_reset FS.frameDec s _ _ h0 heos, fun h0 => pollData_reset s _ _ h0 heos⟩
+  · intro role H N st q r hs
+    have hE : AtEnd st.src := ConnClose.atEnd_closed st.src q r hs
+    refine ⟨⟨pollRecvData_atEnd N st hE, pollRecvData_never_panics N st⟩,
+      ⟨pollRecvTrailersG_atEnd H st hE, pollRecvTrailersG_never_panics H st⟩,
+      fun h0 => ⟨pollHead_atEnd role H st h0 hE, pollHead_never_panics role H st h0⟩, fun heos => ?_⟩
+    rw [ConnClose.lower_connErr] at hs
+    exact calls_on_error role H N st _ _ hs heos
+  · intro cell q
+    rw [ConnClose.ofCode_code _ (fun c h => by cases h)]
+    cases cell <;> rfl
+  · intro cell c hc
+    have : ConnClose.TErr.ofCode c = .terminated c := ConnClose.ofCode_code (.terminated c) (fun c' h => by cases h; exact hc)
+    rw [this]
+    rfl
   · intro blocking cfg c gs ins g e he
     have h1 : (Control.pollControl blocking cfg c gs ins g).res = .err e := by
       cases ins <;> simp [Control.pollControl, he]
@@ -384,17 +479,33 @@ theorem C06_connection_close_partial :
     refine ⟨h.1, fun hc hp mid₁ mid₂ => ?_⟩
     obtain ⟨h1, _, _, h4⟩ := h.2.2.2 e hc hp mid₁ mid₂
     exact ⟨h1, h4⟩
-  · intro role H N ph st h hr
-    have hS := pollPhase_safe role H N ph st (docReach_inv h).1 (docReach_inv h).2
-    exact ⟨(hS.atEnd (Or.inr hr)).1, hS.noPanic⟩
   · intro st c code hc
     simp [connErr, hc]
+  · intro c hwf script out q more hp
+    have h := WriteBuf.stagesE_ok c.stages (WriteBuf.stages_wf c hwf) [] script
+    have hcall : WriteBuf.callE c script = WriteBuf.stagesE c.stages [] script := rfl
+    rw [← hcall, hp] at h
+    exact h.2.2.2 (.conn q) more
 
 example : (Control.pollControl false { role := .server } { control := true, err := some 0x0100 } {}
     [.item (.frame (.settings []))] []).res = .err 0x0100 := by decide
 example : (pollPhase .server okHdr 9 .head (initSt [.reset 0x10c])).1 = .errReset 0x10c := by decide +kernel
 example : ErrCell.convert (.quic (.appClose 0x100)) = .remote (.appClose 0x100) ∧
     ErrCell.convert (.quic .timeout) = .timeout := by decide
+-- the peer closes the connection (application close 0x100) while `recv_data` waits inside DATA(3): the call
+-- pending on `[chunk …]` completes with the connection error once `connErr` is the transport's answer; the
+-- chunk the transport still had queued BEHIND the close is never read
+example : (pollRecvData fsSrc 9 (pollHead .client fsSrc okHdr
+      (initSt (ConnClose.lower [.chunk [0x01, 0x01, 0xaa, 0x00, 0x03, 0xb1]]))).2).1 = .data [0xb1] ∧
+    (pollRecvData fsSrc 9 (pollRecvData fsSrc 9 (pollHead .client fsSrc okHdr
+      (initSt (ConnClose.lower [.chunk [0x01, 0x01, 0xaa, 0x00, 0x03, 0xb1]]))).2).2).1 = .pending ∧
+    (pollRecvData fsSrc 9 (pollRecvData fsSrc 9 (pollHead .client fsSrc okHdr
+      (initSt (ConnClose.lower [.chunk [0x01, 0x01, 0xaa, 0x00, 0x03, 0xb1], .connErr (.appClose 0x100), .chunk [0xb2]]))).2).2).1 =
+      .errReset (ConnClose.TErr.code (.conn (.appClose 0x100))) := by decide +kernel
+example : ConnClose.handleQuic none (ConnClose.TErr.ofCode (ConnClose.TErr.code (.conn .timeout))) =
+    (.connection .timeout, some (.quic .timeout)) := by decide +kernel
+example : ConnClose.handleQuic (some (.internal 0x0105 0)) (.conn (.appClose 7)) =
+    (.connection (.localApp 0x0105 0), some (.internal 0x0105 0)) := by decide
 
 /-! ## 7. The send side under the peer's flow control -/
 
@@ -416,6 +527,94 @@ theorem C06_send_side (w : WriteBuf.WB) (hwf : w.WF) (script : List Nat) :
 example : (match WriteBuf.write (WriteBuf.fromFrame (.data [9, 8, 7])) [1, 0, 2, 1] with
     | .pending out w => (out, w.view)
     | _ => ([], [])) = ([0x00, 0x03, 9], [8, 7]) := by decide +kernel
+
+/-- **Completion of the send-side calls.**  `c` is any API call of the send side as the sequence of
+    transport waits it makes (`SendCall`): client `send_request` = `poll_open_bidi` (waits for stream
+    credit) + one `stream::write`; `send_response` / `send_data` / `send_trailers` = one
+    `stream::write`; `finish` = the grease frame if one is due + `poll_finish`.  The transport's
+    answers (`Acc`) are chosen by the peer: `take k` = flow control (`take 0` = `Pending`), `err e` =
+    the call fails — `StreamTerminated{code}` once the peer's STOP_SENDING has arrived, a connection
+    error once the peer closed the connection or it timed out.  For every call over well-formed
+    `WriteBuf`s (every `From` conversion yields one, `C14_conversions`) and EVERY script:
+    * no panic;
+    * `Ok` ⇒ exactly the call's content went out;
+    * `Err(e)` ⇒ `e` is the FIRST error answer of the script, what went out is a prefix of the
+      content, and nothing that arrives later changes the outcome;
+    * still `Pending` at the end of the script ⇒ the script contains NO error answer and fewer
+      progress answers than the call needs (`need` = one per wait, one per byte: a crude but
+      sufficient bound), a prefix of the content went out — and as soon as an error answer arrives
+      (STOP_SENDING, close, timeout), whatever follows it, the call returns exactly that error;
+    * hence: a script that contains an error answer, or enough acceptance, never leaves the call
+      pending — it ends with `Ok` or with an error of the script;
+    * the single write loop `writeE` (`stream::write`): the same, with the buffer that is left
+      (`DrainOK`: well-formed, not empty, `out ++ left.view` = the original content). -/
+theorem C06_send_completion (c : WriteBuf.SendCall) (hwf : ∀ w ∈ c.writes, w.WF) (script : List WriteBuf.Acc) :
+    WriteBuf.callE c script ≠ .panic ∧
+    (∀ out, WriteBuf.callE c script = .ok out → out = c.content) ∧
+    (∀ out e, WriteBuf.callE c script = .failed out e →
+      (∃ pre post, script = pre ++ .err e :: post ∧ WriteBuf.NoErr pre) ∧ (∃ t, out ++ t = c.content) ∧
+      ∀ more, WriteBuf.callE c (script ++ more) = .failed out e) ∧
+    (∀ out, WriteBuf.callE c script = .pending out →
+      WriteBuf.NoErr script ∧ WriteBuf.posTakes script < c.need ∧ (∃ t, out ++ t = c.content) ∧
+      ∀ e more, WriteBuf.callE c (script ++ .err e :: more) = .failed out e) ∧
+    (((∃ e, WriteBuf.Acc.err e ∈ script) ∨ c.need ≤ WriteBuf.posTakes script) →
+      (∃ out, WriteBuf.callE c script = .ok out) ∨
+      ∃ out e, WriteBuf.callE c script = .failed out e ∧ WriteBuf.Acc.err e ∈ script) ∧
+    (∀ w : WriteBuf.WB, w.WF → WriteBuf.DrainOK w [] script (WriteBuf.writeE (some w) script)) := by
+  have h := WriteBuf.stagesE_ok c.stages (WriteBuf.stages_wf c hwf) [] script
+  have hcall : WriteBuf.callE c script = WriteBuf.stagesE c.stages [] script := rfl
+  have hcont : WriteBuf.content c.stages = c.content := rfl
+  have hneed : WriteBuf.need c.stages = c.need := rfl
+  rw [← hcall] at h
+  refine ⟨?_, ?_, ?_, ?_, ?_, fun w hw => WriteBuf.drainE_ok w hw [] script⟩
+  · intro hp; rw [hp] at h; exact h
+  · intro out ho; rw [ho] at h; simpa [WriteBuf.CallOK, hcont] using h
+  · intro out e ho
+    rw [ho] at h
+    obtain ⟨h1, ⟨t, ht⟩, h3⟩ := h
+    exact ⟨h1, ⟨t, by rw [ht, hcont]; rfl⟩, h3⟩
+  · intro out ho
+    rw [ho] at h
+    obtain ⟨h1, h2, ⟨t, ht⟩, h4⟩ := h
+    exact ⟨h1, by rw [← hneed]; exact h2, ⟨t, by rw [ht, hcont]; rfl⟩, h4⟩
+  · intro hyp
+    cases ho : WriteBuf.callE c script with
+    | ok out => exact Or.inl ⟨out, rfl⟩
+    | failed out e =>
+      rw [ho] at h
+      obtain ⟨⟨pre, post, hs, _⟩, _, _⟩ := h
+      exact Or.inr ⟨out, e, rfl, by rw [hs]; simp⟩
+    | pending out =>
+      rw [ho] at h
+      obtain ⟨h1, h2, _, _⟩ := h
+      rcases hyp with ⟨e, he⟩ | hn
+      · exact (h1 e he).elim
+      · rw [← hneed] at hn; omega
+    | panic => rw [ho] at h; exact h.elim
+
+-- non-vacuity.  `send_data(09 08 07)` (header 00 03, then the payload) gets one byte of write credit, then
+-- none: pending; the peer's STOP_SENDING (code 7) ends the call with that error
+example : (WriteBuf.fromFrame (.data [9, 8, 7])).map (fun w =>
+    (WriteBuf.callE { writes := [w] } [.take 1, .take 0],
+     WriteBuf.callE { writes := [w] } [.take 1, .take 0, .err (.terminated 7), .take 100])) =
+    some (.pending [0x00], .failed [0x00] (.terminated 7)) := by decide +kernel
+-- enough credit in pieces: header rest, then the payload
+example : (WriteBuf.fromFrame (.data [9, 8, 7])).map (fun w =>
+    WriteBuf.callE { writes := [w] } [.take 1, .take 0, .take 9, .take 2, .take 0, .take 1]) =
+    some (.ok [0x00, 0x03, 9, 8, 7]) := by decide +kernel
+-- client `send_request` waits for stream credit (`poll_open_bidi` Pending twice) when the connection times out;
+-- with credit it opens, and is stopped in the middle of the HEADERS frame
+example : (WriteBuf.fromFrame (.headers [0xd1, 0xd7])).map (fun w =>
+    (WriteBuf.callE { opens := true, writes := [w] } [.take 0, .take 0, .err (.conn 1)],
+     WriteBuf.callE { opens := true, writes := [w] } [.take 0, .take 1, .take 2, .take 1, .err (.terminated 0)])) =
+    some (.failed [] (.conn 1), .failed [0x01, 0x02, 0xd1] (.terminated 0)) := by decide +kernel
+-- `finish` with a grease frame due: the frame, then `poll_finish`, which waits until the peer closes
+example : (WriteBuf.fromFrame (.grease 0x21)).map (fun w =>
+    (WriteBuf.callE { writes := [w], finishes := true } [.take 100, .take 0],
+     WriteBuf.callE { writes := [w], finishes := true } [.take 100, .take 0, .err (.conn 0)],
+     WriteBuf.callE { writes := [w], finishes := true } [.take 100, .take 1])) =
+    some (.pending [0x21, 0x06, 103, 114, 101, 97, 115, 101], .failed [0x21, 0x06, 103, 114, 101, 97, 115, 101] (.conn 0),
+          .ok [0x21, 0x06, 103, 114, 101, 97, 115, 101]) := by decide +kernel
 
 /-! ## 8. The setup of a connection against a transport that fails -/
 
